@@ -7,6 +7,9 @@ import (
 // prepareExec prepares execve parameters
 func prepareExec(Args, Env []string) (*byte, []*byte, []*byte, error) {
 	// make exec args0
+	if len(Args) == 0 {
+		return nil, nil, nil, syscall.EINVAL
+	}
 	argv0, err := syscall.BytePtrFromString(Args[0])
 	if err != nil {
 		return nil, nil, nil, err
